@@ -254,6 +254,11 @@ class BoundedStream:
                     # NOTE(kgriffs): The ASGI spec states that 'body' is optional.
                     num_bytes = 0
 
+                # NOTE: Do not count more data than we are expecting; an
+                #   over-long chunk is truncated the same way as in read().
+                if num_bytes > self._bytes_remaining:
+                    num_bytes = self._bytes_remaining
+
                 self._bytes_remaining -= num_bytes
                 self._pos += num_bytes
 
